@@ -1346,7 +1346,7 @@ class Server:
             else:
                 file_mode = mode
             file_out = connection.path_io.open(real_path, mode=file_mode)
-            async with file_out, stream:
+            async with stream, file_out:
                 if connection.transfer_offset:
                     await file_out.seek(connection.transfer_offset)
                 async for data in stream.iter_by_block(connection.block_size):
@@ -1386,7 +1386,7 @@ class Server:
             stream = connection.data_connection
             del connection.data_connection
             file_in = connection.path_io.open(real_path, mode="rb")
-            async with file_in, stream:
+            async with stream, file_in:
                 if connection.transfer_offset:
                     await file_in.seek(connection.transfer_offset)
                 async for data in file_in.iter_by_block(connection.block_size):
